@@ -127,7 +127,7 @@ class TimerScheduler:
                 # Resubmit outside the lock: the callback checkpoints (a network call) and registers a
                 # done-callback that runs inline - in this thread - when the branch has already finished
                 # again, and that callback needs the lock to schedule the next resume.
-                if to_resubmit is not None:
+                if to_resubmit is not None and not self._shutdown.is_set():
                     self.resubmit_callback(to_resubmit)
             else:
                 # Wait until next resume time
@@ -230,7 +230,12 @@ class ConcurrentExecutor(ABC, Generic[CallableType, ResultType]):
                 self._fatal_exception = e
                 self._completion_event.set()
                 return
-            submit_task(executable_with_state)
+            try:
+                submit_task(executable_with_state)
+            except RuntimeError:
+                # execute() has returned and shut the pool down while the refresh above was in
+                # flight (the operation was decided in the meantime): nothing is left to resume
+                logger.debug("Resubmission after the executor was shut down is dropped")
 
         thread_executor = ThreadPoolExecutor(max_workers=max_workers)
         try:
